@@ -8,6 +8,16 @@ TB = ("Trusted: Coq 8.16.1 kernel + vm_compute; no axioms (Print Assumptions und
       "run on the same inputs as the extracted model and, for a subset, the model inside Coq); extraction with ExtrOcamlBasic only + runner/driver.ml; "
       "Go libraries strconv/regexp/time/unicode enter as explicit oracles. ")
 CHECKS = {
+ "C05": dict(
+   text="Theorems: for every NUL-free text of any length the rune reader delivers each rune exactly once, in order, CR/CRLF folded, at its zero-based line and column (induction over the text, against the exact 3-slot ring reader); a pushed-back rune is replayed with its recorded position and restores the reader; termination within |text|+1 tokens, no ring overrun, tiling and first-character positions for every text of length <=3 over a 43-rune class-representative alphabet (finite statement, bound in the theorem name); the two places where the code's positions are NOT the first character (STRING-like tokens, EOF after a scan that swallowed end of input) are stated as _refuted theorems with witnesses and listed as known findings (both pinned by existing tests). Tie: Scanner.Scan to EOF on all texts of length <=3 (thorough <=4) over the alphabet and on generated multi-line/CRLF/multi-byte/comment-bearing texts: (kind, line, char, literal, extent) per token compared with the exact-ring model, extents measured through the build-tag hook independently of positions; tiling and linecol evaluated directly on the implementation.",
+   note=TB + "Partial: tiling/positions of whole token sequences are proved only up to the stated length bound; beyond it they rest on the correspondence. NUL runes are outside the property's domain (they read as EOF).",
+   technique="Coq proof (induction over the text for the reader; kernel-evaluated finite sweep for token sequences) + exhaustive small-scope and generated correspondence",
+   design="5 C05"),
+ "C08": dict(
+   text="Theorems (all spellings, all 64-bit values): ParseDuration returns d only if d is the exact sum (in unbounded Z) of the written components and fits in int64; a malformed spelling or a total outside int64 is an error, never a wrapped value; every well-formed spelling whose total lies in [-MaxInt64, MaxInt64] is accepted; ParseDuration(FormatDuration d) = d for every d except MinInt64 (and that one is shown not invertible); FormatDuration uses the largest unit that divides d, 0 prints as 0s. The model carries int64 wrap-around explicitly. Tie: ParseDuration/FormatDuration vs model on magnitudes within +-3 of MaxInt64/unit for every unit, wrapping multiples, random component sequences, all 64-bit boundary values, and duration literals inside statements; each case also judged directly against math/big.",
+   note=TB + "The overflow defect present at the pinned commit (5124096h -> 25m26s) is repaired by fix commit 929f43e; the model is of the repaired code.",
+   technique="Coq proof (induction over component lists with explicit int64 wrap) + boundary/generated correspondence",
+   design="5 C08"),
  "C03": dict(
    text="Theorems (all chains, all operands, by induction): the tree ParseExpr's right-spine insertion builds from a chain yields the chain in order and is Grouped (left children bind at least as tight, right children strictly tighter); there is exactly one Grouped tree per chain; the function on real BinaryExpr nodes builds that tree for every operand parseUnaryExpr can return; precedence/isOperator tables by computation over the whole enumeration; right spine <= 5. Tie: token table compared exhaustively with the running code; every chain of <=3 (thorough <=4) operators over all 18 spellings plus random chains with parenthesised, negated and literal operands compared (ParseExpr vs model, composed from separately parsed operands) and checked directly against the documented five-level reading and against re-parsing of the printed tree.",
    note=TB + "Re-printing is guarded by the known finding C02-neg-rhs (unary sign desugared without ParenExpr).",
